@@ -364,6 +364,9 @@ func libraryDiffPage(t *testing.T, cr *CaseResult, c *Case) ([]byte, bool) {
 // the pieces.
 func pagePieces(page string) string {
 	page = strings.ReplaceAll(page, "<tr", "\x00<tr")
+	// (what follows the last row of a table is a piece of its own: which row
+	// is the last one is part of the order)
+	page = strings.ReplaceAll(page, "</tr>", "</tr>\x00")
 	page = strings.ReplaceAll(page, "<a name=", "\x00<a name=")
 	page = strings.ReplaceAll(page, "<div class=\"card\">", "\x00<div class=\"card\">")
 	pieces := strings.Split(page, "\x00")
